@@ -1,6 +1,7 @@
 import Tmv.Lemmas.NetLift
 import Tmv.Lemmas.ChainLift
 import Tmv.Lemmas.ChainRun
+import Tmv.Lemmas.NetCommit
 import Tmv.Model.Validate
 /-! # C01 — agreement: correct nodes never commit different blocks at one height
 
@@ -125,6 +126,40 @@ theorem decision_backed (nc : NetCfg) (s : Net) (hr : Reachable nc s) (p : Nat) 
       have ht' : (nc.node p).total = wtUpTo nc.power (fun _ => true) nc.n := ht
       have hq' : 2 * (nc.node p).total < 3 * wtUpTo nc.power (voted (voteLog s.log) true r.toNat (some b')) nc.n := hq
       omega
+
+/-- every node state in a reachable network state is reached from the initial node state by items -/
+theorem nodes_reach (nc : NetCfg) (s : Net) (hr : Reachable nc s) (p : Nat) : NodeReach (nc.node p) (s.nodes p) := by
+  induction hr with
+  | init => exact NodeReach.init
+  | step _ hs ih =>
+    have feed : ∀ (s0 : Net) (q : Nat) (it : Item), NodeReach (nc.node p) (s0.nodes p) →
+        NodeReach (nc.node p) ((s0.feed nc q it).nodes p) := by
+      intro s0 q it h0
+      show NodeReach _ (upd s0.nodes q _ p)
+      unfold upd
+      by_cases e : p = q
+      · subst e; simp only [if_true]; exact NodeReach.item it h0
+      · simp only [e, if_false]; exact h0
+    cases hs with
+    | deliver q k peer hp hk => exact feed _ q _ ih
+    | block q b hp => exact feed _ q _ ih
+    | claim q r t peer bid hp => exact feed _ q _ ih
+    | fire q r st hp hsch => exact feed _ q _ ih
+    | txs q hp => exact feed _ q _ ih
+    | own q k hp => exact feed _ q _ ih
+    | byz m hm => exact ih
+
+/-- **the stored commit verifies**: the commit a node that has decided STORES — `VoteSet.MakeCommit`
+of the precommits of its commit round: a validator is flagged "commit" iff the vote in its canonical
+slot is for the majority block (`Tmv.Net.seenCommit`) — flags validators holding more than two thirds
+of the power, i.e. the tally of `ValidatorSet.VerifyCommit` accepts it. Holds for every reachable
+state and needs nothing of the faulty set: equivocators whose first stored vote was for another value
+are moved to the majority block when the quorum is first reached (the copy loop of
+`addVerifiedVote`), or recorded under it afterwards. -/
+theorem stored_commit_verifies (nc : NetCfg) (s : Net) (hr : Reachable nc s) (p : Nat) (b : Nat) (r : Int)
+    (hd : (s.nodes p).decided = some (b, r)) :
+    ∃ flags, seenCommit (nc.node p) (s.nodes p) = some flags ∧ commitVerifies (nc.node p) flags = true :=
+  Tmv.Net.stored_commit_verifies (nc.node p) (s.nodes p) (nodes_reach nc s hr p) b r hd
 
 /-! ### block validity instantiated with the C06 model of `ValidateBlock` -/
 
